@@ -108,6 +108,27 @@ Theorem bounded_wait :
      is_main_phase (s_phase (fst x)) || is_error (s_phase (fst x)) = true -> armed (snd x) = true).
 Proof. exact bounded_wait_proof. Qed.
 
+(** 5. isolation (product of two stream automata sharing an H2 frontend
+    connection, each with its own backend connection): stream j has ANY history,
+    stream i's record is arbitrary; whatever a backend or the router does to j
+    (connect failure, partial / complete / garbage response, close, backend
+    timer) leaves i's record and i's backend timer untouched, emits only j's
+    events, and keeps the shared connection open, its frontend timer armed and
+    WRITABLE (interest and event) where it was — so i's pending output is still
+    scheduled and i's inputs meet the same connection state. *)
+Theorem isolation :
+  forall (redir : option N) (history : list input) (si : stream) (i : input) (bti : bool),
+    let x := run_st redir (fresh, init_conn true) history in
+    let k := mkC2 (c_h2 (snd x)) (c_int_w (snd x)) (c_ev_w (snd x)) (c_ftimer (snd x)) (c_closed (snd x))
+                  bti (c_btimer (snd x)) in
+    backend_side i = true -> c_closed (snd x) = false ->
+    let '(si', sj', k', e) := step2 gen_tables redir si (fst x) k false i in
+    si' = si /\ k_bt1 k' = bti /\ k_h2 k' = true /\ k_closed k' = false /\
+    (k_ftimer k = true -> k_ftimer k' = true) /\
+    (k_int_w k = true -> k_int_w k' = true) /\ (k_ev_w k = true -> k_ev_w k' = true) /\
+    e = evs redir x i /\ sj' = fst (nxt redir x i).
+Proof. exact isolation_proof. Qed.
+
 (** Non-vacuity: concrete histories reach the interesting verdicts. *)
 Example one_answer_nonvacuous :
   run gen_tables None (fresh, init_conn false)
